@@ -252,7 +252,44 @@ func C11(r *simkit.Run) {
 		if err != nil {
 			simkit.Harnessf("NewExecutor: %v", err)
 		}
+		// Sometimes the run is "apply up to version v" (ExecuteTo): the files up to v count, also
+		// when a checkpoint newer than v exists; afterwards the same executor is asked what is
+		// pending and must see the whole directory again.
+		toVersion := ""
+		if len(files) > 0 && t.Chance("apply-to-version", 1, 6) {
+			toVersion = files[t.Draw("to-version", len(files))].Version
+			n = 0
+		}
 		dec := model.Pending(modelFiles(), modelRevs(), o)
+		if toVersion != "" {
+			mf := modelFiles()
+			idx := -1
+			for i, f := range mf {
+				if f.Version == toVersion {
+					idx = i
+				}
+			}
+			ckAfter := false
+			for _, f := range mf[idx+1:] {
+				ckAfter = ckAfter || f.Checkpoint
+			}
+			if ckAfter {
+				dec = model.Pending(mf[:idx+1], modelRevs(), o)
+				r.Probe("apply-to-version-before-a-checkpoint")
+			} else if dec.Err == model.OK {
+				k := -1
+				for i, f := range dec.Pending {
+					if f.Version == toVersion {
+						k = i
+					}
+				}
+				if k < 0 {
+					dec = model.Decision{Err: "version-not-pending"}
+				} else {
+					dec.Pending = dec.Pending[:k+1]
+				}
+			}
+		}
 		class := classify(dec, o)
 		// Maybe a statement of the files about to run fails (creates partial revisions).
 		want := dec.Pending
@@ -282,7 +319,12 @@ func C11(r *simkit.Run) {
 		}
 		before := len(drv.Effects)
 		revBefore := storeDigest(revs)
-		err = ex.ExecuteN(ctx, n)
+		if toVersion != "" {
+			err = ex.ExecuteTo(ctx, toVersion)
+			r.Fired("apply-to-version")
+		} else {
+			err = ex.ExecuteN(ctx, n)
+		}
 		acts := drv.Effects[before:]
 		var ids []string
 		for _, e := range acts {
@@ -343,6 +385,12 @@ func C11(r *simkit.Run) {
 			}
 			wantClass := map[string]string{model.NoPending: "no-pending", model.NotClean: "not-clean", model.NonLinear: "non-linear", model.MissingFile: "missing-migration"}[dec.Err]
 			gotClass := errClass(err)
+			if dec.Err == "version-not-pending" {
+				if err == nil || !strings.Contains(err.Error(), "not found") {
+					r.Fail(prop, "error-class", sig("version-not-pending-misreported"), "version %s is not among the pending files, executor returned %v", toVersion, err)
+				}
+				break
+			}
 			if dec.Err == model.BaselineNotFound {
 				if err == nil || !strings.Contains(err.Error(), "baseline version") {
 					r.Fail(prop, "error-class", sig("baseline-not-found-misreported"), "baseline %s does not exist, executor returned %v", o.Baseline, err)
@@ -384,6 +432,29 @@ func C11(r *simkit.Run) {
 				}
 			} else if storeDigest(revs) != revBefore {
 				r.Fail(prop, "pending-set", sig("history-changed-by-refusal"), "a refused run changed the history: [%s] -> [%s]", revBefore, storeDigest(revs))
+			}
+		}
+		// After an apply-to-version the same executor still works on the whole directory.
+		if toVersion != "" && !r.Failed() && len(revs.Store) > 0 {
+			after := model.Pending(modelFiles(), modelRevs(), o)
+			got, perr := ex.Pending(ctx)
+			var gv []string
+			for _, f := range got {
+				gv = append(gv, f.Version())
+			}
+			var wv []string
+			for _, f := range after.Pending {
+				wv = append(wv, f.Version)
+			}
+			switch after.Err {
+			case model.OK:
+				if perr != nil || fmt.Sprint(gv) != fmt.Sprint(wv) {
+					r.Fail(prop, "pending-set", "executor-lost-the-directory-after-apply-to-version", "after ExecuteTo(%s) the same executor reports pending %v (err=%v); the directory and history give %v; dir %s history [%s]", strings.TrimLeft(toVersion, "0"), gv, perr, wv, dirDesc(), storeDigest(revs))
+				}
+			case model.NoPending:
+				if !errors.Is(perr, migrate.ErrNoPendingFiles) {
+					r.Fail(prop, "pending-set", "executor-lost-the-directory-after-apply-to-version", "after ExecuteTo(%s) nothing is pending, the same executor reports %v (err=%v)", strings.TrimLeft(toVersion, "0"), gv, perr)
+				}
 			}
 		}
 	}
